@@ -172,4 +172,16 @@ def obligations(tier, sc):
                        "exactly one PRV row per view; no other callback" % modes,
                 assumptions=COMMON + ["recorder bay and recorder prv_register/pcf stubs (harness/C06/wiring.c)",
                                       "uthash list model (stubs/uthash_model)"])))
+    # ---- the select channel of every CPU mux: cpu.th_running must name the unique running thread and be null
+    # when none or SEVERAL threads run (virtual CPUs may be oversubscribed).  These are C05's thread-event
+    # obligations for the configurations where both threads share a CPU, re-run under this property: a seeded
+    # change made th_running name the last running thread of an oversubscribed vCPU; the mux obligations
+    # above start from a correct th_running and cannot see that.
+    from checks import C05 as _c05
+    for ob in _c05.obligations(tier, sc):
+        if ob.info_only or not ob.name.startswith("stepH_"):
+            continue
+        if "th0-vcpu_th1-vcpu" in ob.name or "th0-cpu0_th1-cpu0" in ob.name:
+            ob.name = "select_channel_th_running_" + ob.name
+            obs.append(ob)
     return obs
